@@ -2,7 +2,12 @@
 //! Usage: vmon <PROPERTY-ID> [--seed N] [--tier quick|thorough] [--out FILE] [--replay FILE]
 
 mod common;
+mod robust;
 mod storemon;
+mod structmon;
+
+#[global_allocator]
+static GLOBAL: robust::alloc::Counting = robust::alloc::Counting;
 
 use common::report::{Args, Report};
 
@@ -13,6 +18,11 @@ fn main() {
         std::process::exit(2);
     }
     let id = argv[0].clone();
+    // worker modes (child processes of a monitor)
+    if id == "C25-worker" {
+        robust::codec::worker(&argv[1], &argv[2]);
+        return;
+    }
     let args = Args::parse(&argv[1..]);
     // keep panics of the system under test out of the terminal; they are observations
     std::panic::set_hook(Box::new(|_| {}));
@@ -21,6 +31,9 @@ fn main() {
         "C05" => storemon::main(storemon::Kind::C05, &args),
         "C06" => storemon::main(storemon::Kind::C06, &args),
         "C07" => storemon::main(storemon::Kind::C07, &args),
+        "C25" => robust::codec::main(&args),
+        "C26" => structmon::btree::main(&args),
+        "C27" => structmon::keys::main(&args),
         other => {
             eprintln!("unknown check {other}");
             std::process::exit(2);
